@@ -96,9 +96,23 @@ def observe(cx, tier, seed, workdir, manifest, impl=None):
     n = len(d_full['lattice'])
     _ = lazy.lattice
     d_lazy_after = lazy.todict(ignore_lattice=None)
+    # a returned dict belongs to the caller: editing it in place must not change later serialisations
+    saved = copy.deepcopy(d_full)
+    scratch = ctx.todict()
+    try:
+        scratch['lattice'].reverse()
+        scratch['lattice'][:1] = []
+        scratch['context'].reverse()
+    except Exception:  # noqa: BLE001
+        pass
+    again = ctx.todict()
+    buf2 = io.StringIO()
+    ctx.tojson(buf2)
+    stable = (again == saved and json.loads(buf2.getvalue()) == json.loads(json.dumps(saved)))
     enc_ok = ('lattice' not in d_lazy_before and 'lattice' not in d_nolat and d_lazy_after == d_full
               and d_full['objects'] == tuple(objects) and d_full['properties'] == tuple(properties)
-              and {k: v for k, v in d_full.items() if k != 'lattice'} == d_nolat)
+              and {k: v for k, v in d_full.items() if k != 'lattice'} == d_nolat and stable)
+    d_full = saved
     ctx_sets = [list(row) for row in d_full['context']] if enc_ok else [[7777]]
     lat_terms = [entry_term(e) for e in d_full['lattice']]
 
@@ -151,18 +165,16 @@ def observe(cx, tier, seed, workdir, manifest, impl=None):
         return concepts.Context.fromstring(fresh.tostring(frmat='python-literal'), frmat='python-literal')
     add('python-literal string (lattice not yet computed)', literal_nolat)
     add('pickle context', lambda: pickle.loads(pickle.dumps(ctx)))
-    if n <= 250:
-        add('pickle lattice', lambda: pickle.loads(pickle.dumps(ctx.lattice)), lattice_object=True)
-        add('pickle lattice protocol 2', lambda: pickle.loads(pickle.dumps(ctx.lattice, protocol=2)), lattice_object=True)
+    add('pickle lattice', lambda: pickle.loads(pickle.dumps(ctx.lattice)), lattice_object=True)
+    add('pickle lattice protocol 2', lambda: pickle.loads(pickle.dumps(ctx.lattice, protocol=2)), lattice_object=True)
     add('copy()', lambda: ctx.copy())
     # fresh-process artefacts (observed later by the child interpreter)
     if manifest is not None and (len(manifest) < (120 if tier == 'quick' else 600)):
         try:
             pickle.dump(ctx, open(base + '.ctx.pickle', 'wb'))
             kinds = [('json', base + '.json'), ('literal', base + '.py'), ('pickle-context', base + '.ctx.pickle')]
-            if n <= 250:
-                pickle.dump(ctx.lattice, open(base + '.lat.pickle', 'wb'))
-                kinds.append(('pickle-lattice', base + '.lat.pickle'))
+            pickle.dump(ctx.lattice, open(base + '.lat.pickle', 'wb'))
+            kinds.append(('pickle-lattice', base + '.lat.pickle'))
             with open(base + '.perm.json', 'w') as f:
                 json.dump(dp, f)
             for kind, path in kinds:
@@ -234,6 +246,9 @@ def cases(tier, seed):
             except ValueError:
                 pass
         out = []
+        for pb in large_lattice_glue(tier):
+            c1 = gen.Ctx([1], 1, 'large-lattice-glue')
+            out.append(Case(f'({c1.coq()}, 3%nat, [[7777]%nat], [], [], [])', dict(c1.to_json(), problem=pb), True, [{'glue': pb}], sig=pb))
         for rec in recs:
             obs = [(manifest[i]['kind'] + (' raw' if manifest[i].get('raw') else ''), child.get(i, {'error': 'no output from the child interpreter: ' + pr.stderr[-300:]}))
                    for i in rec['items']]
@@ -254,7 +269,40 @@ def case_from_replay(inp):
         shutil.rmtree(workdir, ignore_errors=True)
 
 
-# known finding F4: pickling a large lattice recurses through the neighbour links
+def large_lattice_glue(tier):
+    """Pickle / JSON / literal round trips of lattices with hundreds to thousands of concepts, compared on the real objects
+    (these sizes are too slow for the in-Coq evaluation of every channel; the codec logic is size-independent by the theorems)."""
+    import concepts
+    problems = []
+
+    def chain(n):
+        return concepts.Context([f'o{i}' for i in range(n)], [f'p{i}' for i in range(n)], [tuple(j <= i for j in range(n)) for i in range(n)])
+
+    def contra(n):
+        return concepts.Context([f'o{i}' for i in range(n)], [f'p{i}' for i in range(n)], [tuple(i != j for j in range(n)) for i in range(n)])
+    for name, c in (('chain(400)', chain(400)), ('contranominal(9)', contra(9)), ('contranominal(10)', contra(10) if tier == 'quick' else contra(12))):
+        try:
+            lat = c.lattice
+            objs, props = list(c.objects), list(c.properties)
+            want = persist_obs.lattice_obs(lat, objs, props)
+            for proto in (2, pickle.HIGHEST_PROTOCOL):
+                got = persist_obs.lattice_obs(pickle.loads(pickle.dumps(lat, protocol=proto)), objs, props)
+                if got != want:
+                    problems.append(f'{name}: lattice unpickled with protocol {proto} differs')
+            c2 = pickle.loads(pickle.dumps(c))
+            if c2 != c or persist_obs.lattice_obs(c2.lattice, objs, props) != want:
+                problems.append(f'{name}: unpickled context differs')
+            buf = io.StringIO()
+            c.tojson(buf)
+            c3 = concepts.Context.fromjson(io.StringIO(buf.getvalue()))
+            if c3 != c or 'lattice' not in c3.__dict__ or persist_obs.lattice_obs(c3.lattice, objs, props) != want:
+                problems.append(f'{name}: JSON round trip differs')
+        except Exception as e:  # noqa: BLE001
+            problems.append(f'{name}: raised {type(e).__name__}: {e}')
+    return problems
+
+
+# F4 (fixed): pickling a large lattice recursed through the neighbour links
 def known_probe(kf):
     if kf.get('id') != 'F4':
         return None
